@@ -299,11 +299,26 @@ func init() {
 		return st[0].(Struct), st[3].(Struct)
 	}
 	rcIdx := func(rc Struct) int { return len(rc) - 1 }
+	// writers waiting for the lock (Go's RWMutex gives a pending Lock precedence over new RLocks:
+	// a goroutine that takes the read lock recursively deadlocks once a writer has queued up)
+	type rwWaitKey struct{ p *Value }
+	waiting := func(m *Machine, a []Value) *int64 {
+		k := rwWaitKey{a[0].(*Value)}
+		if c, ok := m.side[k]; ok {
+			return c.(*int64)
+		}
+		c := new(int64)
+		m.side[k] = c
+		return c
+	}
 	reg("(*sync.RWMutex).Lock", func(m *Machine, fr *frame, a []Value) Value {
 		m.syncPoint(fr)
 		w, rc := rw(a)
 		i := rcIdx(rc)
+		wt := waiting(m, a)
+		*wt++
 		m.block(fr, func() bool { return w[0].(int64) == 0 && rc[i].(int64) == 0 }, "RWMutex.Lock")
+		*wt--
 		w[0] = int64(1)
 		return nil
 	})
@@ -320,7 +335,8 @@ func init() {
 		m.syncPoint(fr)
 		w, rc := rw(a)
 		i := rcIdx(rc)
-		m.block(fr, func() bool { return w[0].(int64) == 0 }, "RWMutex.RLock")
+		wt := waiting(m, a)
+		m.block(fr, func() bool { return w[0].(int64) == 0 && *wt == 0 }, "RWMutex.RLock")
 		rc[i] = rc[i].(int64) + 1
 		return nil
 	})
@@ -344,7 +360,7 @@ func init() {
 	})
 	reg("(*sync.RWMutex).TryRLock", func(m *Machine, fr *frame, a []Value) Value {
 		w, rc := rw(a)
-		if w[0].(int64) == 0 {
+		if w[0].(int64) == 0 && *waiting(m, a) == 0 {
 			i := rcIdx(rc)
 			rc[i] = rc[i].(int64) + 1
 			return true
